@@ -203,7 +203,7 @@ def rand_medium(rng, glass_p=0.0, absorbing_p=0.0):
 
 
 def gen_axial(rng, nsurf=None, mirrors_p=0.0, conic_p=0.3, asphere_p=0.0, finite_p=0.4,
-              glass_p=0.0, stop='any', ap_kinds=('EPD', 'imageFNO', 'objectNA'),
+              glass_p=0.0, stop='any', obj_medium_p=0.0, ap_kinds=('EPD', 'imageFNO', 'objectNA'),
               field_types=('angle', 'object_height'), nwl=(1, 3), image='paraxial',
               max_field_deg=12.0, speed=(3.0, 12.0), immersed_p=0.0, neg_power_p=0.15,
               semi=None, max_tries=200):
@@ -277,7 +277,8 @@ def gen_axial(rng, nsurf=None, mirrors_p=0.0, conic_p=0.3, asphere_p=0.0, finite
         nw = int(rng.integers(nwl[0], nwl[1] + 1))
         wls = sorted(round(float(x), 5) for x in rng.uniform(0.45, 0.7, nw))
         pi = int(rng.integers(nw))
-        spec = dict(obj_t=('inf' if not finite else round(obj_t, 6)), obj_n='air', surfaces=surfaces,
+        obj_n = rand_medium(rng) if (finite and rng.random() < obj_medium_p) else 'air'
+        spec = dict(obj_t=('inf' if not finite else round(obj_t, 6)), obj_n=obj_n, surfaces=surfaces,
                     wavelengths=[[w, i == pi] for i, w in enumerate(wls)], telecentric=False,
                     polarization='ignore')
         # image medium: same as after last optical surface
@@ -336,7 +337,7 @@ def gen_axial(rng, nsurf=None, mirrors_p=0.0, conic_p=0.3, asphere_p=0.0, finite
             if phi < 0:
                 continue
         else:
-            val = math.sin(math.atan(a / (epl + obj_t)))
+            val = medium_index(obj_n, primary_wavelength(spec)) * math.sin(math.atan(a / (epl + obj_t)))
         spec['aperture'] = [apk, round(float(val), 9)]
         # fields
         if ft == 'angle':
